@@ -227,7 +227,7 @@ def aes_check(pid, tier, seed, replay, make_jobs, rule, level="model_checking", 
 @reg("C02")
 def check_c02(tier, seed, replay=None, selftest=False):
     def mk(rng, tier):
-        return merge_jobs(gen_aes.gcm_oneshot_behaviours(rng, 14 if tier == "quick" else 0, full=(tier != "quick")))
+        return merge_jobs(gen_aes.gcm_oneshot_behaviours(rng, 28 if tier == "quick" else 0, full=(tier != "quick")))
     return aes_check("C02", tier, seed, replay, mk,
                      "one evaluation = one one-shot GCM call (family x nt x key size x direction x length class x AAD length x tag "
                      "length x placement/alignment) whose ciphertext and tag TLC recomputes from AesModes!GcmEnc/GcmDec; lengths cover "
@@ -375,8 +375,9 @@ def check_c15(tier, seed, replay=None, selftest=False):
     for ai, alg in enumerate(gen_hash.FAMS):
         fams = gen_hash.FAMS[alg]
         if tier == "quick":
-            sel = [fams[(seed + ai) % len(fams)], "isal"]
-            plan = [(f, 29) for f in sel] + [(sel[0], 32)]
+            # the 2^29 crossing on every family; the 2^32 crossing on two rotating families + the dispatched entry
+            r32 = [fams[(seed + ai) % len(fams)], fams[(seed + ai + 3) % len(fams)], "isal"]
+            plan = [(f, 29) for f in fams + ["isal"]] + [(f, 32) for f in dict.fromkeys(r32)]
         else:
             plan = [(f, x) for f in fams + ["isal", "legacy"] for x in (29, 32)] + [(fams[(seed + ai) % len(fams)], 33), ("isal", 33)]
         for fam, crossing in plan:
